@@ -180,6 +180,9 @@ def generate(targets, report):
                 continue
             report.execs[(t.fullname, c.name)] = ex
             report.assumed |= ex.assumed
+            if ex.inlined:
+                f_ = report.functions[t.fullname]
+                f_['inlined'] = sorted(set(f_.get('inlined', [])) | ex.inlined)
             for o in obls:
                 o.tags = (c.name,) + tuple(o.tags)
                 jobs.append((t, c, o))
